@@ -55,7 +55,7 @@ def judge_cases(run, cases, shrink_budget):
 def main(tier, seed):
     run = core.Run("C01", tier, seed, "translation_validation")
     core.setup_impl_import()
-    ass = core.standard_proof_phase(run, "C01", gen.gen_ops, "PV.Props.C01", extra_targets=["theories/Valid/Diff.vo"])
+    ass = core.standard_proof_phase(run, "C01", lambda: (gen.gen_ops(), gen.gen_forrange()), "PV.Props.C01", extra_targets=["theories/Valid/Diff.vo"])
     rng = run.rng
     n = 70 if tier == "quick" else 1500
     from .. import idioms
@@ -92,6 +92,34 @@ def main(tier, seed):
         except core.CoqEvalError as e:
             run.obligation_broken("differential execution (findings stream)", str(e))
         judge_cases(run, wcases, [0])
+    # for-range with a step that is only known at run time (held in the chip's own memory, so that it is
+    # the same under every oracle) against the same loop with the step written as a literal
+    from .. import diffrun
+    rs_jobs, rs_meta = [], []
+    for a, b, st in [(0, 7, 2), (1, 6, 1), (9, 0, -1), (8, 1, -3), (5, 5, 1), (2, 9, 3)]:
+        body = f"    db.Setting = i\n    d1.Setting = i * 2\nwhile True:\n    yield_()\n"
+        rt = f"stack[100] = {st}\nst = stack[100]\nfor i in range({a}, {b}, st):\n" + body
+        lit = f"stack[100] = {st}\nst = stack[100]\nfor i in range({a}, {b}, {st}):\n" + body
+        rs_jobs += [(rt, pipeline.VECTORS["default"]), (lit, pipeline.VECTORS["default"])]
+        rs_meta.append((a, b, st, rt, lit))
+    rs_res = impl.compile_many(rs_jobs)
+    rs_pairs, rs_keep = [], []
+    for k, m in enumerate(rs_meta):
+        x, y = rs_res[2 * k], rs_res[2 * k + 1]
+        if "code" in x and "code" in y:
+            rs_pairs.append((x["code"], y["code"])); rs_keep.append((m, x, y))
+    try:
+        rs_v = diffrun.tgt_vs_tgt(rs_pairs, [1], fuel=3000, name="c01rs")
+    except core.CoqEvalError as e:
+        run.obligation_broken("machine evaluation (run-time step)", str(e))
+        rs_v = []
+    for (m, x, y), v in zip(rs_keep, rs_v):
+        run.count("evaluations")
+        if v[0][0] != 0:
+            a, b, st, rt, lit = m
+            run.violation("a for-range loop whose step is known only at run time does not iterate like the same loop with the step written out",
+                          {"kind": "runtime_step", "step_sign": "negative" if st < 0 else "positive", "start": a, "stop": b, "step": st,
+                           "source": rt, "literal_source": lit, "code": x["code"], "literal_code": y["code"], "verdict": v[0][0]})
     for f in run.findings.open_for("C01"):
         if f["id"] not in run.known_hits:
             run.note(f"known finding {f['id']} did not reproduce in this run")
